@@ -166,7 +166,8 @@ fn check(property: &str, tier: &str, seed: u64, threads: usize, runs: Option<usi
             let (q, t) = match property {
                 "C01" => (1500, 60_000),
                 "C16" => (1500, 80_000),
-                "C11" | "C13" => (2000, 100_000),
+                "C11" => (6000, 150_000),
+                "C13" => (2000, 100_000),
                 _ => (3000, 200_000),
             };
             driver::run_check(&e, &mk(q, t)).exit_code
